@@ -6,7 +6,7 @@ use super::super::ast::*;
 use super::super::choices::{hash_str, Choices};
 use super::super::engine::*;
 use super::super::gen::{flatten, prologue, Cfg, Gen};
-use super::super::p2::{Session, Step};
+use super::super::p2::{compile_text, make_packet, run_filter_rounds, Compiled, Session, Step};
 use super::super::progcheck::*;
 use super::Meta;
 
@@ -14,7 +14,7 @@ pub const META: Meta = Meta {
     rule: "(statements, proptest) statement sequences from the program generator with the expression grammar turned loose inside statements: if/match used as operands \
 (array/map elements, call arguments, binary operands, index expressions, let initialisers), branches ending in a nested block / a let / nothing, and (mode B) break/continue \
 reachable inside such operand positions; every top-level statement is compiled and run the way the REPL does (shared symbol table, constants, globals) and the VM's operand-stack \
-height (hook VM::verif_sp) must be 0 after it, also when the statement left a loop through break; (long loops) a 10^4-iteration counter loop around generated statements, at top level \
+height (hook VM::verif_sp) must be 0 after it, also when the statement left a loop through break; (filter-frames, proptest) programs of one to three filter statements whose actions are generated statement sequences declaring locals, local functions and closures, run in-process the way run_filters of src/main.rs runs them (push_filter_frame / run / pop_filter_frame per packet, then the end filter) over 2-5 packets: the stack height after every single filter execution must equal the height before it; (long loops) a 10^4-iteration counter loop around generated statements, at top level \
 and inside a function, run as a whole program: it must not report 'Stack overflow!' and must agree with the reference interpreter. \
 Non-trivial: (statements) the sequence contains a jump inside an operand position, or a branch whose last statement is not an expression statement, or a loop left through break; \
 (long loops) >= 4097 iterations actually executed per the reference. Distinct by source-text hash.",
@@ -22,7 +22,7 @@ Non-trivial: (statements) the sequence contains a jump inside an operand positio
         "statement stepping replicates run_prompt of src/main.rs through the public Compiler::new_with_state / VM::new_with_global_store API",
         "stack height read through the verif_hooks accessor VM::verif_sp",
     ],
-    required_classes: &[("statements", 5_000), ("shape:odd-branch", 500), ("shape:jump-in-operand", 300), ("long-loop", 300), ("long-loop:4097+", 100)],
+    required_classes: &[("statements", 5_000), ("shape:odd-branch", 500), ("shape:jump-in-operand", 300), ("long-loop", 300), ("long-loop:4097+", 100), ("filter-frames:locals-ran-twice", 2_000)],
     exhaustive_when_sections: &[],
 };
 
@@ -367,6 +367,97 @@ fn odd_assignment_targets(ctx: &mut Ctx) {
     }
 }
 
+/// Filter statements run once per packet in a frame of their own (`push_filter_frame` / `pop_filter_frame`):
+/// each execution must leave the operand stack exactly where it found it, whatever the action declares.
+fn check_filter_src(ctx: &mut Ctx, section: &str, src: &str, npk: usize) -> Vec<Violation> {
+    guard(section, "src", src);
+    let case = json!({"src": src, "packets": npk});
+    let bytecode = match compile_text(src) {
+        Ok(Compiled::Ok(b)) => (*b).0,
+        Ok(_) => {
+            ctx.excluded(1);
+            ctx.class("filter-frames:not-compiled");
+            return vec![];
+        }
+        Err(p) => return vec![Violation::new(section, p.signature(), format!("compiling crashed: {}\n{}", p.describe(), src), case)],
+    };
+    let pkts: Vec<_> = (0..npk).map(|i| make_packet(100 + i as u32, 7, 60, 60, &[(i as u8).wrapping_mul(37); 60])).collect();
+    let fr = match run_filter_rounds(bytecode, &pkts) {
+        Ok(fr) => fr,
+        Err(p) => return vec![Violation::new(section, p.signature(), format!("running the filters crashed: {}\n{}", p.describe(), src), case)],
+    };
+    let mut out = Vec::new();
+    let with_locals_ran = fr.steps.iter().filter(|(_, k, _, _, e)| e.is_none() && *k != usize::MAX && fr.locals.get(*k).copied().unwrap_or(0) > 0).count();
+    ctx.case(hash_str(src) ^ npk as u64, with_locals_ran >= 2);
+    ctx.class("filter-frames");
+    if with_locals_ran >= 2 {
+        ctx.class("filter-frames:locals-ran-twice");
+    }
+    if fr.main_err.is_some() {
+        ctx.class("filter-frames:main-failed");
+    }
+    for (pk, k, before, after, err) in &fr.steps {
+        if err.is_some() {
+            ctx.class("filter-frames:filter-failed");
+            continue; // a failed filter ends the run; the stack is not used again
+        }
+        if before != after {
+            let which = if *k == usize::MAX { "the end filter".to_string() } else { format!("filter #{} ({} locals)", k, fr.locals.get(*k).copied().unwrap_or(0)) };
+            out.push(Violation::new(
+                section,
+                if *k == usize::MAX { "filter-frame-leak:end" } else { "filter-frame-leak" },
+                format!("operand stack height went from {} to {} over one execution of {} on packet {}:\n{}", before, after, which, pk, src),
+                case,
+            ));
+            break;
+        }
+    }
+    if ctx.want_sample() && with_locals_ran >= 2 && ctx.res.evals % 61 == 3 {
+        ctx.sample(json!({"section": section, "src": src, "packets": npk, "filter_executions": fr.steps.len(), "locals_per_filter": fr.locals}));
+    }
+    out
+}
+
+fn gen_filter_src(bytes: &[u8]) -> Option<(String, usize)> {
+    let mut c = Choices::new(bytes);
+    let nf = 1 + c.below(3);
+    let npk = 2 + c.below(4);
+    let mut src = String::from("let seen = 0;\nlet acc = [];\n");
+    for _ in 0..nf {
+        let pat = ["true", "NP % 2 == 1", "PL > 20", "false", "seen < 100", "1", "NP", "len(acc) < 50"][c.below(8)];
+        let take = 6 + c.below(40);
+        let sub = c.bytes(take);
+        let mut cfg = gen_cfg(&sub, false);
+        cfg.max_stmts = 1 + c.below(7);
+        cfg.probes = false;
+        let mut cc = Choices::new(&sub[1.min(sub.len())..]);
+        let body = {
+            let mut g = Gen::new(&mut cc, cfg);
+            flatten(g.program())
+        };
+        // programs that ask for huge amounts of memory are outside every property
+        let rr = reference(&body, 100_000);
+        let text = render(&body);
+        if memory_risk(&rr, &text) {
+            return None;
+        }
+        let extra = match c.below(4) {
+            0 => "let grown = push(acc, NP);\n",
+            1 => "let t1 = PL; let t2 = [t1, WL]; let t3 = fn(q) { q + t1 };\nseen = t3(seen) - t1;\n",
+            _ => "",
+        };
+        if c.below(5) == 0 {
+            src.push_str(&format!("@ {}\n", pat));
+        } else {
+            src.push_str(&format!("@ {} {{\n{}\n{}seen = seen + 1;\n}}\n", pat, text, extra));
+        }
+    }
+    if c.bool() {
+        src.push_str("@ end {\nlet total = seen;\nlet pair = [total, len(acc)];\nacc = pair;\n}\n");
+    }
+    Some((src, npk))
+}
+
 pub fn run(ctx: &mut Ctx) {
     fn_endings(ctx);
     odd_assignment_targets(ctx);
@@ -383,6 +474,14 @@ pub fn run(ctx: &mut Ctx) {
         check_statements(ctx, "statements-jumps", &prog)
     });
     ctx.more_samples(2);
+    drive(ctx, "filter-frames", ctx.tier.pick(24_000, 600_000) / n, 16, 300, |ctx, bytes| match gen_filter_src(bytes) {
+        Some((src, npk)) => check_filter_src(ctx, "filter-frames", &src, npk),
+        None => {
+            ctx.excluded(1);
+            vec![]
+        }
+    });
+    ctx.more_samples(2);
     drive(ctx, "long-loops", ctx.tier.pick(2_400, 60_000) / n, 12, 200, |ctx, bytes| {
         let jumps = bytes.first().copied().unwrap_or(0) & 1 == 1;
         let prog = gen_long(bytes, jumps);
@@ -391,6 +490,14 @@ pub fn run(ctx: &mut Ctx) {
 }
 
 pub fn replay(section: &str, case: &Value, ctx: &mut Ctx) {
+    if section == "filter-frames" {
+        let src = case["src"].as_str().unwrap_or("");
+        let npk = case["packets"].as_u64().unwrap_or(3) as usize;
+        for v in check_filter_src(ctx, section, src, npk) {
+            ctx.report(v);
+        }
+        return;
+    }
     match parse_prog(case) {
         Some(prog) => {
             let vs = if section == "long-loops" { check_long(ctx, section, &prog) } else { check_statements(ctx, section, &prog) };
